@@ -54,6 +54,9 @@ class Atom:
     __slots__ = ("rel", "L", "R", "src", "lab", "cond")
 
     def __init__(self, rel, L, R, src, lab, cond):
+        # canonical orientation: a constant operand goes to the right
+        if R is not None and L.const is not None and R.const is None:
+            L, R, rel = R, L, FLIP[rel]
         self.rel, self.L, self.R, self.src, self.lab, self.cond = rel, L, R, src, lab, cond
 
     def __repr__(self):
